@@ -883,6 +883,10 @@ func runBatchAll(c *core.Ctx) {
 			if strings.HasPrefix(cp, "call:") && strings.Contains(cp, "getEventKey(") && strings.HasSuffix(cp, "#1") && !cd.True {
 				reason = true
 			}
+			// the element is nil: there is no event to store (`if event == nil { continue }`)
+			if b, isBin := cd.V.(*ssa.BinOp); isBin && an.IsNilConst(b.Y) && (b.Op == token.EQL) == cd.True && strings.HasSuffix(cp, "[*] == const:nil)") && typeNameOf(b.X.Type()) == "Event" {
+				reason = true
+			}
 			// a builder failed
 			if b, isBin := cd.V.(*ssa.BinOp); isBin && an.IsNilConst(b.Y) && (b.Op == token.NEQ) == cd.True {
 				if ex, isEx := b.X.(*ssa.Extract); isEx {
